@@ -111,6 +111,12 @@ def run_case(spec):
         if p.exact:
             cs = [GR(Fraction(int(rng.choice([-3, -2, 2, 3, 5])), int(rng.choice([1, 2, 3])))) for _ in range(p.n_par)]
             bitwise = False
+        elif (p.hermitian or rng.random() < 0.5) and rng.random() < 0.5 and all(sum(n) <= 1 for n in p.terms_f) and not p.notes.get("units") and not p.notes.get("user_atol"):
+            # very small / large factors (powers of two: bitwise): every *input* term stays far above `atol`, the
+            # higher-order intermediates (c^n ~ 1e-12 ... 1e-27; the smallest input entry is 2^-33 ~ 1.2e-10) do not - no result may be pruned because it is small
+            cs = [float(rng.choice([2.0**-20, 2.0**-25, 2.0**-30, -(2.0**-28), 2.0**10])) for _ in range(p.n_par)]
+            bitwise = True
+            counters["extreme_scale_factors"] += 1
         elif p.hermitian or rng.random() < 0.5:
             cs = [float(rng.choice([0.5, 2.0, 4.0, -2.0, 0.25, -0.5])) for _ in range(p.n_par)]
             bitwise = True
@@ -327,7 +333,7 @@ def finalize(c, tier, evaluations, distinct):
     for r in RELATIONS:
         if c.get(f"relation_{r}", 0) < 40:
             reasons.append(f"relation {r} exercised only {c.get('relation_' + r, 0)} times")
-    for k, v in dict(hermitian=100, nonhermitian=100, bitwise_scale_comparisons=500, elements_compared=5000, vtype_sympy=30, vtype_sparse=30).items():
+    for k, v in dict(hermitian=100, nonhermitian=100, bitwise_scale_comparisons=500, elements_compared=5000, vtype_sympy=30, vtype_sparse=30, extreme_scale_factors=2).items():
         if c.get(k, 0) < v:
             reasons.append(f"{k} observed only {c.get(k, 0)} (< {v})")
     return reasons
